@@ -956,7 +956,7 @@ theorem core_rescan {r : Reader} {pos : Nat} {bom bom_s : Bom} {d pre tail : Byt
     (IH : IHyp r.src.rest.length)
     (hrel : Rel r pos bom d) (hwin : r.win = pre ++ tail) (hs : Skips (pos == 0) pre 0 bom bom_s)
     (hscan : fbLoop (pos == 0) (pre ++ tail) .top 0 bom = (bom_s, .refill .none tail.length off))
-    (hfuel : 2 * r.src.rest.length + 4 ≤ f + 2) :
+    (hfuel : r.src.rest ≠ [] → 2 * r.src.rest.length + 4 ≤ f + 2) :
     Out (run (f + 2) .fallback r) pos bom d := by
   have hd : d = pre ++ (tail ++ r.src.rest) := by rw [← hrel.data, hwin]; simp
   have hrelb : Rel { r with bom := bom_s } pos bom_s d := hrel.setBom bom_s
@@ -1034,6 +1034,7 @@ theorem core_rescan {r : Reader} {pos : Nat} {bom bom_s : Bom} {d pre tail : Byt
     simp only
     rw [hsrc0] at hk hrest1
     have hl1 : r1.src.rest.length + (k + 1) = r.src.rest.length := by rw [hrest1]; simp; omega
+    have hfuel := hfuel he
     have := IH r1 (pos + pre.length) bom_s (tail ++ r.src.rest) f (by omega) hrel1 (by omega)
     rw [hd]
     exact Out_skip hs this
@@ -1093,7 +1094,8 @@ theorem core_token {r : Reader} {pos : Nat} {bom bom_s bomR : Bom} {d pre tl : B
     (hrel : Rel r pos bom d) (hwin : r.win = pre ++ c :: tl) (hs : Skips (pos == 0) pre 0 bom bom_s)
     (h35 : (c == 35) = false) (hbomR : (c == 0xef) = false → bomR = bom_s)
     (hscan : ∀ x, fbLoop (pos == 0) (pre ++ (c :: tl ++ x)) .top 0 bom = (bomR, tokenAt c (tl ++ x) pre.length))
-    (hfuel : 2 * r.src.rest.length + 4 ≤ f + 2) :
+    (hfuel1 : 2 * r.src.rest.length + 3 ≤ f + 2)
+    (hfuel : r.src.rest ≠ [] → 2 * r.src.rest.length + 4 ≤ f + 2) :
     Out (run (f + 2) .fallback r) pos bom d := by
   have hd : d = pre ++ (c :: tl ++ r.src.rest) := by rw [← hrel.data, hwin]; simp
   have hscanW : fbLoop (pos == 0) r.win .top 0 bom = (bomR, tokenAt c tl pre.length) := by
@@ -1194,5 +1196,88 @@ theorem core_token {r : Reader} {pos : Nat} {bom bom_s bomR : Bom} {d pre tl : B
         refine ⟨r', h1, ?_⟩
         have e1 : pos + d.length = pos + pre.length + (tl.length + 1 + r.src.rest.length) := by rw [hdlen]; omega
         rw [e1, List.drop_length]; exact h2
+
+end Jomini.TextReader
+
+namespace Jomini.TextReader
+open Jomini Jomini.TextReader.Spec
+
+/-- **one call of `next_opt_fallback`, any schedule**: whatever the window currently holds and however the
+undelivered bytes arrive, the call returns what the reference step prescribes for the whole remaining input
+(same token, same clean end, same `Eof`), and leaves the reader related to the remaining input. -/
+theorem run_fallback_spec : ∀ (n : Nat) (r : Reader) (pos : Nat) (bom : Bom) (d : Bytes) (fuel : Nat),
+    r.src.rest.length = n → Rel r pos bom d → 2 * r.src.rest.length + 4 ≤ fuel →
+    Out (run fuel .fallback r) pos bom d := by
+  intro n
+  induction n using Nat.strongRecOn with
+  | _ n ih =>
+    intro r pos bom d fuel hn hrel hfuel
+    have IH : IHyp r.src.rest.length := by
+      intro r' pos' bom' d' fuel' hlt hrel' hf'
+      exact ih _ (by omega) r' pos' bom' d' fuel' rfl hrel' hf'
+    obtain ⟨f, rfl⟩ : ∃ f, fuel = f + 2 := ⟨fuel - 2, by omega⟩
+    obtain ⟨pre, tail, bom_s, hw, hs, ht⟩ := decompose (pos == 0) r.win.length r.win 0 bom (Nat.le_refl _)
+    simp only [Nat.zero_add] at ht
+    rcases fbLoop_tail ht with ⟨rfl, h1⟩ | ⟨a, rfl, h1⟩ | ⟨c, tl, bomR, rfl, h35, hb, h1⟩ | ⟨tl, rfl, hlt, hbc, h1⟩
+    · refine core_rescan (off := 0) IH hrel hw hs ?_ (fun _ => hfuel)
+      rw [hs.fbLoop]; simpa using h1
+    · refine core_rescan (off := 0) IH hrel hw hs ?_ (fun _ => hfuel)
+      rw [hs.fbLoop]; simpa using h1
+    · refine core_token IH hrel hw hs h35 hb ?_ (by omega) (fun _ => hfuel)
+      intro x
+      rw [hs.fbLoop]; simpa using h1 x
+    · -- the BOM arm asks for more bytes
+      obtain ⟨_, hbu, hj, hp⟩ := hbc
+      have hpre : pre = [] := List.eq_nil_of_length_eq_zero hj
+      subst hpre
+      have hbs := hs.nil_eq
+      subst hbs hbu
+      simp only [List.nil_append] at hw
+      have hscanW : fbLoop (pos == 0) r.win .top 0 .unknown = (.unknown, .bomFill) := by rw [hw]; exact h1
+      by_cases he : r.src.rest = []
+      · obtain ⟨r1, hfill, hrel1, hwin1, hrest1⟩ := hrel.fill_end he
+        have hrun : run (f + 2) .fallback r = run (f + 1) .fallback { r1 with bom := .notPresent } := by
+          rw [run_fallback_unfold, hrel.pos, hrel.bom, hscanW]
+          have : ({ r with bom := Bom.unknown } : Reader) = r := by
+            have hb := hrel.bom
+            cases r with
+            | mk cap win consumed prior src bom => simp only at hb; subst hb; rfl
+          simp only [this, hfill]
+        obtain ⟨f', rfl⟩ : ∃ f', f = f' + 1 := ⟨f - 1, by omega⟩
+        have hrelN : Rel { r1 with bom := .notPresent } pos .notPresent d := hrel1.setBom .notPresent
+        have hdw : d = 0xef :: tl := by rw [← hrel.data, he, hw]; simp
+        have IH0 : IHyp ({ r1 with bom := Bom.notPresent } : Reader).src.rest.length := by
+          intro r' _ _ _ _ hlt; simp [hrest1] at hlt
+        have hnbc : ¬BomCheck (pos == 0) 0xef 0 .notPresent := by simp [BomCheck]
+        have hout := core_token (r := { r1 with bom := .notPresent }) (pre := []) (c := 0xef) (tl := tl)
+          (bom_s := .notPresent) (bomR := .notPresent) (f := f') IH0 hrelN (by simp [hwin1, hw]) (.nil _ _)
+          (by decide) (by intro h; simp at h)
+          (by intro x; simpa [bomAfter] using fbLoop_token (r := tl ++ x) (by decide) (by decide) hnbc)
+          (by simp [hrest1]; omega) (by intro h; simp [hrest1] at h)
+        rw [hrun]
+        -- with fewer than three bytes in all, the reference step is the one with the BOM ruled out
+        unfold Out at hout ⊢
+        have hspec : specStep (pos == 0) .unknown d = specStep (pos == 0) .notPresent d := by
+          have hfN := fbLoop_token (pos0 := (pos == 0)) (r := tl) (j := 0) (by decide) (by decide) hnbc
+          simp only [List.length_nil] at h1
+          unfold specStep
+          rw [hdw, h1, hfN]
+          simp only
+          cases htk : tokenAt 0xef tl 0 with
+          | bomFill => exact absurd htk (tokenAt_not_bomFill _ _ _)
+          | tok _ _ => rfl
+          | refill _ _ _ => rfl
+        rw [hspec]; exact hout
+      · obtain ⟨r1, k, hfill, hrel1, hk, hwin1, hrest1⟩ := hrel.fill_more he
+        have hrun : run (f + 2) .fallback r = run (f + 1) .fallback r1 := by
+          rw [run_fallback_unfold, hrel.pos, hrel.bom, hscanW]
+          have : ({ r with bom := Bom.unknown } : Reader) = r := by
+            have hb := hrel.bom
+            cases r with
+            | mk cap win consumed prior src bom => simp only at hb; subst hb; rfl
+          simp only [this, hfill]
+        rw [hrun]
+        have hl1 : r1.src.rest.length + (k + 1) = r.src.rest.length := by rw [hrest1]; simp; omega
+        exact IH r1 pos .unknown d (f + 1) (by omega) hrel1 (by omega)
 
 end Jomini.TextReader
